@@ -71,5 +71,11 @@ CHECKS = {
   text="Each of 17 raw-carrying and 13 file-carrying constructs is placed at top level, in a quote, list item, note, colon directive, included file and substitution value (thorough: every pair of contexts) and in runs of 2-4 adjacent raw siblings, and rendered under raw_enabled x file_insertion_enabled: with raw disabled no raw node and no unescaped sentinel element may reach doctree or HTML; with file insertion disabled no sentinel file content may appear and the audit hook must see no open() of a sentinel file; every refusal is reported and the surrounding paragraphs survive; with both settings on the payload must appear (vacuity guard).",
   note="Pure invariant (no reference model), hence 'exploration'. Trusted: sentinel detection; audit hook sees every open(); docutils front end; writer-side file reads out of scope.",
  ),
+ "C17": dict(
+  category="model_checking",
+  technique="bounded exhaustive enumeration of HTML fragments x extension combinations x contexts, of <img>/<div.admonition> attribute x value products and of GFM tag spellings, executed on the real renderer; markdown-it token content, the harness-written directive spelling and the stdlib html.parser as reference models",
+  text="(1) 20 fragments alone and in ordered pairs, in 3 contexts, under the 4 html_image/html_admonition combinations: every html token that a stdlib-parser model classifies as non-convertible must appear as one raw html node with exactly the token content. (2) <img> with each of 9 attributes x 36 values full of option-syntax characters (+ value-less attributes; thorough: attribute pairs), as block, inline and quoted HTML, must give the same image node as the {image} directive written from the same dictionary; 360 div.admonition forms (titles, bodies with inner Markdown, attributes, contexts) must equal the {admonition} directive. (3) 9 GFM-disallowed names x open/close x 3 cases x 12 followers x 8 positions: html.parser finds no disallowed tag in the raw output, and non-tags are unchanged.",
+  note="Trusted: stdlib html.parser as tag scanner and top-level model; harness-written directive spelling; fragments with a never-closed tag are unspecified; gfm via create_md_parser with the linkify rule disabled.",
+ ),
 }
 NOT_APPLICABLE = {}
